@@ -1,5 +1,6 @@
 import Ledger.Proofs.SchedLocks
 import Ledger.Proofs.SchedHandles
+import Ledger.Proofs.SchedWitnesses
 
 /-!
 # C12 (schedule part) — Import and concurrent writes on one ledger never interleave
@@ -67,10 +68,6 @@ theorem lock_first_in_generated_handles :
 
 /-! ## examples (tests) -/
 
-def exW : Send := { l := 1, sync := false, src := 5, dst := 6, amt := 2, allow := .unbounded }
-def exWorld (writer : Prog) : World :=
-  { state := fun l => if l = 1 then { com := some false } else {}
-    sess := fun s => if s = 1 then { prog := importProg 1 false exImp } else if s = 2 then { prog := writer } else {} }
 
 /-- Import first: the writer waits at the ledger lock through both of Import's transactions, then sees
     the imported state (ids continue after the imported ones) -/
